@@ -896,6 +896,7 @@ type event struct {
 	kind string
 	a, b int
 	l    *link
+	c    *Conn
 	w    int
 }
 
@@ -974,8 +975,8 @@ func (s *Sim) events() []event {
 		}
 		evs = append(evs, event{kind: "send", a: i, w: k.WClient})
 	}
-	for _, i := range s.gated() {
-		evs = append(evs, event{kind: "release-handler", a: i, w: 2 * k.WDeliver})
+	for _, c := range s.gated() {
+		evs = append(evs, event{kind: "release-handler", c: c, w: 2 * k.WDeliver})
 	}
 	// repairs are ordinary events once their hold time is over
 	if s.partitioned && s.step >= s.partHoldTill {
@@ -1017,14 +1018,20 @@ func (s *Sim) proposedHook(nc net.Conn) {
 	<-g
 }
 
-// gated lists the connections whose handler waits at the proposed hook, in
-// client order.
-func (s *Sim) gated() []int {
-	var out []int
+// gated lists the connections whose handler waits at the proposed hook, by node
+// and order of connection (also connections their client has given up on: the
+// apply loop may be waiting to hand such a handler its result).
+func (s *Sim) gated() []*Conn {
+	var out []*Conn
 	s.mu.Lock()
-	for i, c := range s.cs {
-		if c.conn != nil && c.conn.gate != nil {
-			out = append(out, i)
+	for _, ns := range s.nodes {
+		if ns.inc == nil || ns.inc.dead || ns.inc.stopped {
+			continue
+		}
+		for _, c := range ns.inc.conns {
+			if c.gate != nil {
+				out = append(out, c)
+			}
 		}
 	}
 	s.mu.Unlock()
@@ -1232,12 +1239,9 @@ func (s *Sim) apply(e event) {
 	case "send":
 		s.applySend(e.a)
 	case "release-handler":
-		c := s.cs[e.a]
-		s.trace("release-handler c%d", e.a)
+		s.trace("release-handler %s@n%d", e.c.name, e.c.inc.node.id)
 		s.fault("handler-parked-between-propose-and-wait")
-		if c.conn != nil {
-			s.openGate(c.conn)
-		}
+		s.openGate(e.c)
 	case "heal":
 		s.heal()
 	case "restart":
